@@ -805,14 +805,30 @@ func (g *gen) genClient(r *vlib.Rand, thorough bool, budget int) {
 			return f
 		}
 		var sentIdx []int // indices of recv/pub events
+		var usedIds []string
 		nEv := 5 + rr.Intn(12)
 		for k := 0; k < nEv; k++ {
 			idx := len(evs)
 			switch x := rr.Intn(100); {
-			case x < 30: // genuine
+			case x < 30: // genuine, sometimes preceded by a frame with the SAME msg id that must be dropped
 				f := newMsg()
+				if rr.Chance(1, 3) {
+					evs = append(evs, dropFrame(rr, rr.Intn(nDropKinds), *f))
+					sentIdx = append(sentIdx, idx)
+					idx = len(evs)
+					g.w.Stat("cli.shadow_before_genuine")
+				}
+				usedIds = append(usedIds, f.Id)
 				evs = append(evs, cliEv{K: "recv", Msg: f, Sign: f.Ident})
 				sentIdx = append(sentIdx, idx)
+			case x >= 95 && x < 98: // burst of >= ring frames that must all be dropped without touching the ring
+				kind := rr.Intn(nDropKinds)
+				for b := c.Ring + rr.Intn(2); b > 0; b-- {
+					f := newMsg()
+					f.TsMode, f.TsVal = "rel", 0
+					evs = append(evs, dropFrame(rr, kind, *f))
+				}
+				g.w.Stat("cli.drop_burst")
 			case x < 52: // forged / tampered
 				f := newMsg()
 				e := cliEv{K: "recv", Msg: f, Sign: f.Ident}
@@ -832,6 +848,10 @@ func (g *gen) genClient(r *vlib.Rand, thorough bool, budget int) {
 				case 4:
 					idN++
 					e.Alter = []cliAlter{{F: "id", S: hexId("idx", idN)}}
+					if len(usedIds) > 0 && rr.Bool() { // re-use the id of a genuine message sent earlier
+						e.Alter = []cliAlter{{F: "id", S: usedIds[rr.Intn(len(usedIds))]}}
+						g.w.Stat("cli.forged_reuses_id")
+					}
 				case 5:
 					e.Alter = []cliAlter{{F: "ts", I: []int64{1, -1, 1000}[rr.Intn(3)]}}
 				case 6:
@@ -953,6 +973,147 @@ func (g *gen) genClient(r *vlib.Rand, thorough bool, budget int) {
 				evs = append(evs, cliEv{K: "replay", Ref: first})
 				g.w.Stat("cli.window_scenarios")
 				g.clientCase(cliHist{Cfg: c, Evs: evs})
+			}
+		}
+	}
+}
+
+// ------------------------------------------------------------------ frames that must be dropped WITHOUT side effects
+
+// kinds of frames that fail exactly one filter of handlePublish/receivePublish and pass all earlier ones
+// (in the scenario setup: accounts 0 and 1 are members of "s" and "sa", account 2 is not; only "s" has a
+// subscription, to ">").  The last kind is the contrast: a genuine frame with a KeyId and no Crypto IS
+// recorded in the ring by the real code (and by the model) although it is never delivered.
+const (
+	dropPayloadTooBig = iota
+	dropInvalidTopic
+	dropNoInterest
+	dropJunkIdentity
+	dropNonMember
+	dropNotOwner
+	dropStale
+	dropJunkSig
+	dropOtherKeySig
+	dropTamperedAfterSigning
+	nDropKinds
+	recordedUndeliverable = nDropKinds // not a drop-without-side-effect: see above
+)
+
+var dropKindName = []string{"payload_too_big", "invalid_topic", "no_interest", "junk_identity", "non_member", "not_owner",
+	"stale", "junk_sig", "other_key_sig", "tampered", "keyid_no_crypto"}
+
+// dropFrame turns the fields of an otherwise genuine message into a recv event failing filter [kind]; the msg id
+// (and everything the kind does not need to change) is kept.
+func dropFrame(rr *vlib.Rand, kind int, f cliFields) cliEv {
+	e := cliEv{K: "recv", Msg: &f, Sign: f.Ident}
+	switch kind {
+	case dropPayloadTooBig:
+		f.Payload = hex.EncodeToString(make([]byte, 65+rr.Intn(3)))
+	case dropInvalidTopic:
+		f.Topic = []string{"a//b", "a/*", ">"}[rr.Intn(3)]
+	case dropNoInterest:
+		f.Space = "sa"
+	case dropJunkIdentity:
+		e.Alter = []cliAlter{{F: "ident", I: int64(-1 - rr.Intn(3))}}
+	case dropNonMember:
+		f.Ident, e.Sign = 2, 2
+	case dropNotOwner:
+		f.Topic = fmt.Sprintf("acc/x/@%d", (f.Ident+1)%2)
+	case dropStale:
+		f.TsMode, f.TsVal = "rel", []int64{-120000, 120000, -90000}[rr.Intn(3)]
+	case dropJunkSig:
+		e.Sign = -1
+	case dropOtherKeySig:
+		e.Sign = (f.Ident + 1 + rr.Intn(2)) % 3
+	case dropTamperedAfterSigning:
+		e.Alter = []cliAlter{{F: "payload", S: f.Payload + "00"}}
+	case recordedUndeliverable:
+		f.Key = "k7"
+	default:
+		panic("drop kind")
+	}
+	return e
+}
+
+// genClientNoSideEffects: (A) a dropped frame that carries msg id X, then the genuine message X: it must be delivered;
+// (B) a genuine delivery, then a burst of dropped frames with fresh ids sized so that the genuine id stays in the ring
+// iff the dropped frames were NOT recorded, then the replay: it must be suppressed; (C) the same with the dropped
+// frames re-using ids of messages delivered earlier; (D) interest: a dropped frame between subscribe and a genuine
+// message, and after an unsubscribe, changes nothing.  Every sent frame is followed by a sentinel that takes one ring
+// slot (the model sees the sentinels), hence the burst sizes below.
+func (g *gen) genClientNoSideEffects(r *vlib.Rand, thorough bool, budget int) {
+	rounds := budget
+	if thorough {
+		rounds = 12 * budget
+	}
+	setup := func() []cliEv {
+		return []cliEv{{K: "setmember", Space: "s", Acct: 0, B: true}, {K: "setmember", Space: "s", Acct: 1, B: true},
+			{K: "setmember", Space: "sa", Acct: 0, B: true}, {K: "setmember", Space: "sa", Acct: 1, B: true},
+			{K: "sub", Space: "s", Pat: ">"}}
+	}
+	for round := 0; round < rounds; round++ {
+		rr := r.Fork(uint64(2000000 + round))
+		for kind := 0; kind <= recordedUndeliverable; kind++ {
+			genuine := func(n int) cliFields {
+				f := cliFields{Space: "s", Topic: []string{"a/b", "b", "acc/x/@1"}[rr.Intn(3)], Id: hexId("N", 100*round+n), Ident: 1,
+					TsMode: "rel", Payload: hex.EncodeToString(randBytes(rr, 1+rr.Intn(4)))}
+				if rr.Chance(1, 3) {
+					f.TsMode = "zero"
+				}
+				if kind == dropStale {
+					f.TsMode = "rel" // a zero timestamp is never stale
+				}
+				return f
+			}
+			cfg := func(ring int) cliCfg {
+				return cliCfg{Ring: ring, SkewMs: 60000, MaxPat: 100, MaxPay: 64, Accounts: 3, KeySeed: rr.U64() % 4}
+			}
+			// (A) shadow: dropped(X) [x1 or x2], genuine(X), replay(X)
+			for _, ring := range []int{2, 5} {
+				evs := setup()
+				f := genuine(1)
+				for n := 1 + rr.Intn(2); n > 0; n-- {
+					evs = append(evs, dropFrame(rr, kind, f))
+				}
+				gi := len(evs)
+				evs = append(evs, cliEv{K: "recv", Msg: &f, Sign: 1})
+				if ring > 2 {
+					evs = append(evs, cliEv{K: "replay", Ref: gi})
+				}
+				g.w.Stat("cli.noeffect.shadow." + dropKindName[kind])
+				g.clientCase(cliHist{Cfg: cfg(ring), Evs: evs})
+			}
+			// (B) burst: genuine(X) takes 2 slots (X + sentinel); n dropped frames take n slots (their sentinels) if they are
+			// not recorded and 2n if they are: with n = ring-2 the replay is suppressed iff nothing was recorded
+			for _, ring := range []int{3, 4, 7} {
+				evs := setup()
+				f := genuine(2)
+				gi := len(evs)
+				evs = append(evs, cliEv{K: "recv", Msg: &f, Sign: 1})
+				for n := 0; n < ring-2; n++ {
+					d := genuine(10 + n)
+					if rr.Chance(1, 4) {
+						d.Id = f.Id // (C) re-using the id that is already in the ring
+					}
+					evs = append(evs, dropFrame(rr, kind, d))
+				}
+				evs = append(evs, cliEv{K: "replay", Ref: gi})
+				g.w.Stat("cli.noeffect.burst." + dropKindName[kind])
+				g.clientCase(cliHist{Cfg: cfg(ring), Evs: evs})
+			}
+			// (D) interest is untouched by a dropped frame: sub, dropped, genuine (delivered), unsub, dropped, genuine (not)
+			{
+				evs := setup()
+				evs = append(evs, cliEv{K: "sub", Space: "s", Pat: "a/*"})
+				f1, f2 := genuine(3), genuine(4)
+				f1.Topic, f2.Topic = "a/b", "a/b"
+				evs = append(evs, dropFrame(rr, kind, genuine(5)), cliEv{K: "recv", Msg: &f1, Sign: 1},
+					cliEv{K: "unsub", Space: "s", Pat: ">"}, dropFrame(rr, kind, genuine(6)), cliEv{K: "recv", Msg: &f2, Sign: 1},
+					cliEv{K: "unsub", Space: "s", Pat: "a/*"}, dropFrame(rr, kind, f2))
+				f3 := genuine(7)
+				evs = append(evs, cliEv{K: "recv", Msg: &f3, Sign: 1})
+				g.w.Stat("cli.noeffect.interest." + dropKindName[kind])
+				g.clientCase(cliHist{Cfg: cfg(16), Evs: evs})
 			}
 		}
 	}
